@@ -209,14 +209,14 @@ def oracle_cases(rng, tier):
     cases = []
     rates = lambda: dict(tau=rng.choice([0.3, 0.7, 1.5]), gamma=rng.choice([0.5, 1.0]), rho=rng.choice([0.05, 0.1, 0.25]), tmax=5.0, tcount=11)
     # (a) SIR hierarchy on random degree distributions, uniform rho
-    for i in range(12 if thorough else 3):
+    for i in range(40 if thorough else 3):
         degs = rng.choice([(1, 2, 2, 3, 3, 4, 5), (1, 1, 2, 6), (2, 3, 4), (1, 3, 3, 5, 7), (0, 1, 2, 3)])
         G = O.labelled(O.hetero_graph(rng, rng.choice([16, 20, 30]), degs), rng); dg = O.graph_desc(G); r = rates()
         for b in SIR_HIER:
             cases.append(('EBCM_from_graph~%s/degree-distribution' % b, 'equiv', dict(graph=dg, a='EBCM_from_graph', b=b, **r)))
     # (b) uncorrelated preferential mixing
     from .c08 import rand_Pk
-    for i in range(10 if thorough else 3):
+    for i in range(40 if thorough else 3):
         Pk = rand_Pk(rng); pk = {str(k): float(v) for k, v in Pk.items() if k > 0 or True}
         if 0 in Pk:      # P(k'|0) is irrelevant but the dict must be rectangular; degree-0 nodes are fine for both models
             pass
